@@ -128,3 +128,13 @@ CLAIMED["C13"] = (
     "are not 1 KiB aligned). IEE is not covered.",
     "Trusted: AES as external (A-crypto-fun); encrypt_image loops (OTFAD/IEE/BEE), key-blob export/unwrap and KEK scrambling are NOT under contract; A-enc, A-smt.",
     "DESIGN.md 7 C13")
+CLAIMED["C15"] = (
+    "Response side of debug authentication: for the RSA and ECC response classes, with the credential, the challenge and the signer abstract, "
+    "it is proved for all contents that the message handed to the signer is exactly credential || LE32(beacon) || [device UUID taken from the "
+    "challenge, ECC versions] || challenge vector, and that the exported response is credential || LE32(beacon) || [device UUID] || signature over "
+    "that message — so a response is bound to the credential, beacon, device UUID and challenge (injectivity: all parts have fixed or "
+    "credential-determined lengths). 'Never verifies against another challenge' then rests on the signature scheme (not claimed).",
+    "Trusted: the signature provider as an uninterpreted function (A-crypto-fun / A-crypto-sec not claimed), A-enc, A-smt, A-struct. The debug "
+    "credential classes (export/parse/_get_data_to_sign, RoT meta; RoT hash equality with C03), challenge parsing, EdgeLock-enclave v2 responses "
+    "and the YAML front end are NOT under contract.",
+    "DESIGN.md 7 C15")
